@@ -197,6 +197,22 @@ theorem thread_outcomes {J : Type} (p : ConnParams) (ctx : Nat) (hs hp : HArg) (
       (statusCall p ctx hs hp exitCb parse clock script) :=
   threadRun_shape parse clock (doPingOf hp) (calleeOf hs) (calleeOf hp) exitCb _ script
 
+/-- The exit callback in the log, for EVERY script: `exit` occurs iff an exit callback was given
+and a `disconnect` happened; when it occurs it is the LAST action, the connection is closed, the
+thread has ended without error; a `disconnect` always leaves the connection closed and the thread
+ended; and `exit` never occurs twice. -/
+theorem exit_is_last {J : Type} (p : ConnParams) (ctx : Nat) (hs hp : HArg) (exitCb : Bool)
+    (parse : String → Except Err J) (clock : Nat → Nat) (script : List StatusPkt)
+    (run : StatusRunS J) (hrun : run = statusCall p ctx hs hp exitCb parse clock script) :
+    (SAct.exit ∈ run.acts ↔ exitCb = true ∧ SAct.disconnect ∈ run.acts) ∧
+    (SAct.exit ∈ run.acts → run.acts.getLast? = some .exit ∧ run.connected = false ∧
+      run.threadEnded = true ∧ run.error = none) ∧
+    (SAct.disconnect ∈ run.acts → run.connected = false ∧ run.threadEnded = true ∧
+      run.error = none) ∧
+    run.acts.countP SAct.isExit ≤ 1 := by
+  subst hrun
+  exact (thread_outcomes p ctx hs hp exitCb parse clock script).exit_last
+
 /-- Without latency, EVERY script: nothing happens until the first response; that response either
 fails to parse (error path) or is handed to the status handler exactly once, after the disconnect;
 later responses, pongs and anything else are never reacted to. -/
@@ -213,14 +229,21 @@ theorem noping_any_script {J : Type} (p : ConnParams) (ctx : Nat) (hs : HArg) (e
       (∀ q ∈ others, ∀ j', q ≠ StatusPkt.response j') ∧ parse j = .ok d ∧
       (statusCall p ctx hs .disabled exitCb parse clock script).acts =
         [.disconnect, .callStatus (calleeOf hs) d] ++ (if exitCb then [.exit] else [])) := by
+  have hd : doPingOf .disabled = false := rfl
   rcases runLoopS_noping parse clock (calleeOf hs) (calleeOf .disabled) script TSt.init rfl with
     ⟨h, hn⟩ | ⟨o, j, r, e, h1, h2, h3, h⟩ | ⟨o, j, r, d, h1, h2, h3, h⟩
   · refine .inl ⟨hn, ?_, ?_⟩ <;>
-      simp [statusCall, statusCallWith, threadRun, doPingOf, h, TSt.init]
+    · unfold statusCall statusCallWith threadRun
+      rw [hd, h]
+      rfl
   · refine .inr (.inl ⟨o, j, r, e, h1, h2, h3, ?_⟩)
-    simp [statusCall, statusCallWith, threadRun, doPingOf, h]
+    unfold statusCall statusCallWith threadRun
+    rw [hd, h]
+    rfl
   · refine .inr (.inr ⟨o, j, r, d, h1, h2, h3, ?_⟩)
-    cases exitCb <;> simp [statusCall, statusCallWith, threadRun, doPingOf, h, TSt.disc, TSt.init]
+    unfold statusCall statusCallWith threadRun
+    rw [hd, h]
+    cases exitCb <;> rfl
 
 /-! ## Part 2 — negotiation on arbitrary replies -/
 
@@ -236,9 +259,9 @@ theorem fallback_only_when_no_version : FallbackOnlyWhenNoVersion isEOFError := 
   · constructor
     · intro he; cases he; exact ⟨rfl, rfl⟩
     · rintro ⟨rfl, _⟩; rfl
-  · exact ⟨fun he => by cases he, fun he => by cases he.2⟩
-  · exact ⟨fun he => by cases he, fun he => by cases he.2⟩
-  · exact ⟨fun he => by cases he, fun he => by cases he.2⟩
+  · exact ⟨(fun he => by cases he), (fun he => by cases he.2)⟩
+  · exact ⟨(fun he => by cases he), (fun he => by cases he.2)⟩
+  · exact ⟨(fun he => by cases he), (fun he => by cases he.2)⟩
 
 /-- The changed code of audit item 1 — `handle_exception` testing `isinstance(exc, Exception)`
 instead of `EOFError` (or the fallback moved to a place where every error reaches it) — violates
@@ -364,15 +387,23 @@ theorem session_total (env : VEnv) (allowed : Option (List VReq)) (initial : Opt
     (h : ctor env allowed initial = .ok cfg) (p : ConnParams) (r : StatusReply) :
     ∃ s, session env p cfg.allowed cfg.default r = .ok s := by
   obtain ⟨_, hl, _, _⟩ := ctor_ok env allowed initial cfg h
-  unfold session connectPlan
-  rw [hl]
-  simp only
-  split
-  · split <;> exact ⟨_, rfl⟩
-  · split
-    · rename_i v hv
+  have hcp : connectPlan env cfg.allowed =
+      .ok (if cfg.allowed.length = 1 then .direct cfg.ctx else .query cfg.ctx) := by
+    simp only [connectPlan, hl]
+    split <;> rfl
+  by_cases h1 : cfg.allowed.length = 1
+  · simp only [session, hcp, if_pos h1]
+    exact ⟨_, rfl⟩
+  · cases ho : evalStatus env cfg.allowed cfg.default r with
+    | connect v =>
+      simp only [session, hcp, if_neg h1, ho, connectPlan_single]
       exact ⟨_, rfl⟩
-    · exact ⟨_, rfl⟩
+    | mismatch n nm b =>
+      simp only [session, hcp, if_neg h1, ho]
+      exact ⟨_, rfl⟩
+    | invalidStatus =>
+      simp only [session, hcp, if_neg h1, ho]
+      exact ⟨_, rfl⟩
 
 /-- The version tables of the running module, as the `VEnv` the negotiation model consults. -/
 def liveEnv : VEnv :=
@@ -392,7 +423,10 @@ theorem live_rank (v : Nat) (hv : v ∈ liveEnv.knownOrder) :
   have h := (C08.indices_spec liveRecords).2.1 v (rankOf liveEnv v)
   rw [C08.model_eq_live] at h
   rw [h]
-  exact List.getElem?_idxOf hv
+  have hv' : v ∈ liveTables.knownProtocols := hv
+  have hlt := List.idxOf_lt_length_of_mem hv'
+  show liveTables.knownProtocols[liveTables.knownProtocols.idxOf v]? = some v
+  rw [List.getElem?_eq_getElem hlt, List.getElem_idxOf hlt]
 
 /-- With the live tables: the default constructor succeeds, and after ANY successful constructor
 every session exists. -/
@@ -447,7 +481,9 @@ example : statusCall paramsEx 754 .custom .custom false parseEx clockEx [.respon
 -- the changed `do_ping` rule, concretely
 example : (statusCallWith (fun hp => hp != .dflt) paramsEx 754 .dflt .disabled true parseEx clockEx
     [.response "{}"]).acts = [.sendPing 1000, .callStatus .printer "{}"] := by decide +kernel
-example : clockEx 0 ≤ clockEx 1 ∧ ∀ i k, i ≤ k → k ≤ 5 → clockEx i ≤ clockEx k := by decide +kernel
+-- a monotone clock (hypothesis `hm` of `latency_general`)
+example : ∀ i k, i ≤ k → (fun n => 1000 + 42 * n) i ≤ (fun n => 1000 + 42 * n) k :=
+  fun _ _ h => Nat.add_le_add_left (Nat.mul_le_mul_left 42 h) 1000
 
 /-- Known version names for the examples (`KNOWN_MINECRAFT_VERSIONS`). -/
 def knEx : List (String × Nat) := [("1.8.9", 47), ("1.12.2", 340), ("1.16.4", 754), ("1.14.4", 498)]
@@ -518,9 +554,9 @@ example : abstractReply (.json (.arr [])) = none := by decide +kernel
 example : noVersion (.json (.arr [])) = true ∧ noVersion .ioError = false ∧
     noVersion (.json (.obj [])) = false := by decide +kernel
 -- sessions after a successful constructor
-example : ∃ cfg, ctor envEx (some [.num 340, .num 47]) (some (.num 754)) = .ok cfg ∧
-    ∃ s, session envEx paramsEx cfg.allowed cfg.default .closedBeforeReply = .ok s ∧
-      s.outcome = .connect 754 := ⟨_, by decide +kernel, _, by decide +kernel, by decide +kernel⟩
+example : ctor envEx (some [.num 340, .num 47]) (some (.num 754)) = .ok ⟨[47, 340], 754, 340⟩ ∧
+    (session envEx paramsEx [47, 340] 754 .closedBeforeReply).toOption.map (·.outcome) =
+      some (.connect 754) := by decide +kernel
 example : liveEnv.supportedProtocols.length ≥ 100 ∧ 757 ∈ liveEnv.supportedProtocols := by
   decide +kernel
 
